@@ -117,6 +117,8 @@ def gen_terms(rng, docs, depth, top):
         a["ord_default"] = True
     a["ord"] = ord_
     a["sub"] = sub
+    if sub and "missing" in a and "F54" not in fixed_ids() and any(a["missing"] in d[field] for d in docs):
+        a["missing"] = 99 if field != "cat" else 10      # `missing` key = a real value, with sub-aggregations: finding F54
     nd = distinct_vals(docs, field, a.get("missing"))
     seg = max(a["size"] * 10, a["size"])
     if nd > seg or rng.random() < 0.2:
@@ -581,11 +583,25 @@ def random_cases(ctx, n, seed, label="rand", nmax=12, depth=2, mv=False, seeds=(
 F14_TEXT = "F14 bucket doc_count on a multi-valued field counts values, not documents"
 F44_TEXT = ("F44 top_hits under a bucket aggregation comes back empty for some buckets: TopHitsSegmentCollector::prepare_max_bucket shrinks its "
             "bucket vector (Vec::resize) when a later flush of the sub-aggregation buffer has a smaller maximum bucket id")
-TAG_TEXT = {"F14": F14_TEXT, "F44": F44_TEXT}
+F54_TEXT = ("F54 terms aggregation whose `missing` key is also a real value of the field hands its sub-aggregations an unsorted doc id list "
+            "(ColumnBlockAccessor::fetch_block_with_missing appends the documents without a value after the others); a sub-aggregation "
+            "with its own `missing` then counts documents twice")
+TAG_TEXT = {"F14": F14_TEXT, "F44": F44_TEXT, "F54": F54_TEXT}
+
+
+_FIXED = None
 
 
 def fixed_ids():
     """findings of C14 repaired in /repo (fixed: lines of known_findings.json): no longer steered around"""
+    global _FIXED
+    if _FIXED is not None:
+        return _FIXED
+    _FIXED = _fixed_ids()
+    return _FIXED
+
+
+def _fixed_ids():
     ids = set(x for x in os.environ.get("C14_ASSUME_FIXED", "").split(",") if x)
     for line in vlib.load_known().get("fixed", []):
         if "property=C14" in line:
@@ -760,6 +776,31 @@ def known_finding_runs(ctx):
         log("[kf] F14: the recorded finding did not reproduce")
 
 
+def f54_witness():
+    """document 1 has no f (-> `missing` key 0), document 2 has f = 0: the bucket 0 collects the doc ids [1, 0];
+    the avg below it has its own `missing` and walks them as if sorted: (5 - 2 - 2) / 3 instead of (5 - 2) / 2"""
+    docs = [{"id": [1], "cat": [], "v": [5], "w": [], "f": [], "d": [], "g": [1], "q": [1]},
+            {"id": [2], "cat": [], "v": [], "w": [], "f": [0], "d": [], "g": [1], "q": [1]}]
+    t = dict(_TERMS, field="f", missing=0, sub=[["a", {"k": "avg", "field": "v", "missing": -2}], ["c", {"k": "value_count", "field": "v", "missing": -2}]])
+    return {"id": 900014, "tag": "F54", "docs": docs, "parts": [[[0, 1]]], "all": [[0, 1]], "query": "all", "req": [["t", t]],
+            "plan": [{"op": "collect", "h": 1, "part": 0}, {"op": "final", "h": 1}]}
+
+
+def f54_run(ctx):
+    """while F54 is open: its dedicated reproduction; once fixed the witness is a regression seed (see run)"""
+    if "F54" in fixed_ids():
+        return
+    cases = [f54_witness()]
+    ev = execute(ctx, cases, "kf54")
+
+    def describe54(case, e, why):
+        return f"{F54_TEXT}: {why}"
+    rej = judge(ctx, ev, cases, "kf54", describe=describe54)
+    ctx.cov.setdefault("known_finding_reproductions", {})["F54"] = f"{len(rej)} of {len(cases)} cases rejected"
+    if not rej:
+        log("[kf] F54: the recorded finding did not reproduce")
+
+
 def binding_selftest(ctx, events, cases):
     """corrupt one observed field of an accepted trace: TLC must reject"""
     runs = [r for r in vlib.split_runs(events, reset="case") if any(e.get("op") == "merge" for e in r)][:4]
@@ -844,12 +885,15 @@ def run(ctx):
     model_checking(ctx)
     ev_g, cases_g = replay_generated(ctx, 120 if ctx.quick else 1500)
     seeds, seeds_mv = regression_seeds()
+    if "F54" in fixed_ids():
+        seeds = seeds + [dict(f54_witness(), tag="seed F54")]
     ev_r, cases_r = random_cases(ctx, 750 if ctx.quick else 5000, ctx.seed, seeds=seeds)
     # bucket aggregations on multi-valued fields (with sub-aggregations), judged by the variant that mirrors F14
     random_cases(ctx, 220 if ctx.quick else 2500, ctx.seed + 5000, label="mv", mv=True, seeds=seeds_mv)
     random_cases(ctx, 20 if ctx.quick else 150, ctx.seed + 7000, label="big", nmax=150, depth=2)
     random_cases(ctx, 130 if ctx.quick else 2500, ctx.seed + 9000, label="deep", nmax=9, depth=3)
     flush_runs(ctx, 3 if ctx.quick else 25)
+    f54_run(ctx)
     known_finding_runs(ctx)
     binding_selftest(ctx, ev_r, cases_r)
     c = cases_r[len(seeds)]
